@@ -14,7 +14,7 @@ def nontrivial(req, obs):
 
 SPEC = {
     "id": "C17",
-    "gens": ["CompileTables", "PipelineTables"],
+    "gens": ["CompileTables", "PipelineTables", "Reserved"],
     "lean_modules": ["RsslVerif.Thm.C17"],
     "theorems": [T + n for n in [
         "loop_shape_as_modelled", "pipelines_reads_covered", "one_per_pipeline_in_order",
